@@ -282,8 +282,17 @@ def _merge_objs(objs):
         else:
             o.fields[n] = mk_union(vals)
     if o.kind == "ulist":
-        first = objs[0][1].cache
-        o.cache = {k: v for k, v in first.items() if all(k in ob.cache and same_value(v, ob.cache[k]) for _, ob in objs[1:])}
+        # elements are functions of the index: whichever branch materialised one, it is *the* element (its heap objects
+        # exist in the merged heap); an index materialised differently on two branches is dropped and re-read on demand
+        o.cache = {}
+        bad = set()
+        for _, ob in objs:
+            for k, v in ob.cache.items():
+                if k in o.cache and not same_value(v, o.cache[k]):
+                    bad.add(k)
+                o.cache.setdefault(k, v)
+        for k in bad:
+            del o.cache[k]
     if o.kind == "list" and any(ob.kind == "alist" for _, ob in objs):
         raise Unsupported("merge of list and array-list")
     if o.kind == "list":
